@@ -290,6 +290,10 @@ structure Delivery (ε : Type) where
   /-- `true`: the scheduled closure ran on the timer thread; `false`: `delay_ms == 0`, sent directly -/
   viaTimer : Bool
   entry : Entry ε
+  /-- what the receiving session reads as the event: the closure's `Event` holds `Data` values whose
+  containers (`Data::Array`, `Data::Map`) are `Arc`s SHARED with the sender's datamodel
+  (`Data::clone` is shallow), so the reader sees them through the sender's data as they are now -/
+  seen : ε
   deriving DecidableEq
 
 /-- one session's state as far as delayed sends are concerned -/
@@ -311,9 +315,17 @@ structure Timer (δ ε : Type) where
   log : List (Delivery ε)
   /-- `error.execution` raised by `<send>` (negative delay, delayed `#_internal`) -/
   errors : Nat
+  /-- how an event value built earlier reads given the datamodel as it is now: the identity for
+  values without containers; for a `<param location=…>` / namelist entry that is an array or a map
+  the elements are read from the (shared) cells of the sender's datamodel.  Constant. -/
+  deref : δ → ε → ε
 
-def Timer.init (d : δ) : Timer δ ε :=
-  { now := 0, alive := true, stopped := false, nextSeq := 0, data := d, pending := [], delayed := [], log := [], errors := 0 }
+def Timer.initWith (deref : δ → ε → ε) (d : δ) : Timer δ ε :=
+  { now := 0, alive := true, stopped := false, nextSeq := 0, data := d, pending := [], delayed := [], log := [],
+    errors := 0, deref := deref }
+
+/-- a session whose events share nothing with its datamodel (scalar payloads only) -/
+def Timer.init (d : δ) : Timer δ ε := Timer.initWith (fun _ e => e) d
 
 def lookupId (id : SendId) : List (SendId × Nat) → Option Nat
   | [] => none
@@ -341,7 +353,7 @@ def Timer.send (t : Timer δ ε) (id : Option SendId) (target : Str) (delay : In
     let seq := t.nextSeq
     if delay = 0 then
       { t with nextSeq := seq + 1,
-               log := t.log ++ [⟨t.now, false, ⟨t.now, seq, id, target, ev⟩⟩] }
+               log := t.log ++ [⟨t.now, false, ⟨t.now, seq, id, target, ev⟩, t.deref t.data ev⟩] }
     else
       let e : Entry ε := ⟨t.now + delay.toNat, seq, id, target, ev⟩
       let pending := insertEntry e t.pending
@@ -366,12 +378,12 @@ def Timer.cancel (t : Timer δ ε) (id : SendId) : Timer δ ε :=
 is stored there is dropped — then the event is handed to the I/O processor -/
 def fireOne (t : Timer δ ε) (e : Entry ε) (rest : List (Entry ε)) : Timer δ ε :=
   match e.sendid with
-  | none => { t with pending := rest, log := t.log ++ [⟨t.now, true, e⟩] }
+  | none => { t with pending := rest, log := t.log ++ [⟨t.now, true, e, t.deref t.data e.event⟩] }
   | some sid =>
     match lookupId sid t.delayed with
-    | none => { t with pending := rest, log := t.log ++ [⟨t.now, true, e⟩] }
+    | none => { t with pending := rest, log := t.log ++ [⟨t.now, true, e, t.deref t.data e.event⟩] }
     | some g => { t with pending := dropGuard g rest, delayed := removeId sid t.delayed,
-                         log := t.log ++ [⟨t.now, true, e⟩] }
+                         log := t.log ++ [⟨t.now, true, e, t.deref t.data e.event⟩] }
 
 /-- the scheduler loop: pop while the first entry is due -/
 def fireLoop : Nat → Timer δ ε → Timer δ ε
